@@ -248,6 +248,7 @@ func (s *Store) Flush() error {
 	for _, name := range cnames {
 		c := coll[name]
 		rnls[name] = c.rootAddRef()
+		verifPoint("flush.pin")
 	}
 	defer func() {
 		for _, name := range cnames {
@@ -255,10 +256,12 @@ func (s *Store) Flush() error {
 		}
 	}()
 	for _, name := range cnames {
+		verifPoint("flush.coll")
 		if err := coll[name].write(rnls[name].root); err != nil {
 			return err
 		}
 	}
+	verifPoint("flush.roots")
 	return s.writeRoots(rnls)
 }
 
@@ -305,6 +308,7 @@ func (s *Store) Snapshot() (snapshot *Store) {
 		callbacks: s.callbacks,
 	}
 	for _, name := range collNames(coll) {
+		verifPoint("snap.coll")
 		collOrig := coll[name]
 		coll[name] = &Collection{
 			store:    res,
@@ -450,6 +454,7 @@ func (s *Store) readRoots() error {
 func (s *Store) readRootsScan(defaultToEmpty bool) (err error) {
 	rootsEnd := make([]byte, rootsEndLen)
 	for {
+		verifPoint("rootscan.iter")
 		if err := s.scanBackwardsForMagicEnd(rootsEnd, defaultToEmpty); err != nil {
 			return err
 		}
@@ -466,6 +471,7 @@ func (s *Store) readRootsScan(defaultToEmpty bool) (err error) {
 
 func (s *Store) scanBackwardsForMagicEnd(rootsEnd []byte, defaultToEmpty bool) error {
 	for {
+		verifPoint("rootscan.iter")
 		if atomic.LoadInt64(&s.size) <= rootsLen {
 			if defaultToEmpty {
 				atomic.StoreInt64(&s.size, 0)
